@@ -174,6 +174,25 @@ func (s *Fn) callFacts(c *ssa.Call, ret func(i int) Lin, res int) (out []Lin) {
 	case "bytes.LastIndexByte", "strings.LastIndexByte", "bytes.LastIndexAny", "strings.LastIndexAny", "bytes.IndexFunc", "bytes.LastIndexFunc", "strings.IndexFunc", "strings.LastIndexFunc":
 		add(le(konst(-1), r))
 		add(lt(r, s.lenOf(a[0])))
+	case "unicode/utf8.DecodeRune", "unicode/utf8.DecodeRuneInString", "unicode/utf8.DecodeLastRune", "unicode/utf8.DecodeLastRuneInString":
+		// (rune, size): 0 <= size <= 4, size <= len(p), and size >= 1 for a non-empty p
+		if res == 1 {
+			add(le(konst(0), r))
+			add(le(r, konst(4)))
+			add(le(r, s.lenOf(a[0])))
+			// non-empty by the branch conditions that dominate the call alone (no inferred invariant is used)
+			var fs, dq []Lin
+			for d := c.Block(); d != nil; d = d.Idom() {
+				if len(d.Preds) == 1 {
+					f, q := s.edgeFacts(d.Preds[0], d)
+					fs = append(fs, f...)
+					dq = append(dq, q...)
+				}
+			}
+			if s.entails(fs, dq, le(konst(1), s.lenOf(a[0]))) {
+				add(le(konst(1), r))
+			}
+		}
 	case "io.ReadFull":
 		if res == 0 {
 			add(le(konst(0), r))
